@@ -120,7 +120,7 @@ func qeGenBackend(r *vRand, idx int, maxHosts int) *qeBackend {
 	if len(hostNames) > maxHosts {
 		hostNames = hostNames[:maxHosts]
 	}
-	if len(hostNames) >= 2 && r.chance(1, 3) {
+	if len(hostNames) >= 2 && r.chance(1, 2) {
 		// a name which is a prefix of another one, followed by a character below ';' (joined keys order differently)
 		pair := vPick(r, [][]string{{"web", "web-2"}, {"x", "x.1"}, {"web", "web01"}, {"h", "h-1"}})
 		rest := []string{}
